@@ -157,8 +157,13 @@ func Verif_C13_StoreNoAlias() {
 	p1 := gSym("p1", kind, 2)
 	gStoreIn(s, 0, k1, p1)
 	p2 := gVal{kind: gAbsent}
-	if vr.Choose("p2present", 2) == 1 {
+	switch vr.Choose("p2present", 3) {
+	case 1:
 		p2 = gSym("p2", kind, 2)
+		gStoreIn(s, 0, k2, p2)
+	case 2:
+		// the second operand exists but is empty (what removing the last member leaves behind)
+		p2 = gVal{kind: kind}
 		gStoreIn(s, 0, k2, p2)
 	}
 	var err error
